@@ -65,5 +65,57 @@ impl DS {
         ensures r matches Ok(b) ==> b == ds_refers_to(*self, *name, *key)
 //%end
 }
+// ---------------- verify_dnskey: is this DNSKEY authenticated by the parent's (validated) DS RRset? ----------------
+//%enum crates/proto/src/dnssec/proof.rs :: Proof
+//%end
+impl Proof {
+//%fn crates/proto/src/dnssec/proof.rs :: impl Proof :: is_secure
+//%sub1 "*self == Self::Secure" => "matches!(*self, Self::Secure)" # R-shim: derived PartialEq on a field-less enum -> the pattern it denotes
+//%contract
+        ensures r == (*self is Secure)
+//%end
+}
+// the variants of error.rs::ProofErrorKind that verify_dnskey constructs (payloads are never inspected)
+pub enum ProofErrorKind { ErrorComputingKeyTag { name: Name }, UnsupportedKeyAlgorithm, DnsKeyHasNoDs { name: Name } }
+pub struct ProofError { pub proof: Proof, pub kind: ProofErrorKind }
+impl ProofError {
+    // error.rs::ProofError::new boxes the kind; the box is irrelevant here
+    pub fn new(p: Proof, kind: ProofErrorKind) -> (r: Self) ensures r.proof == p { ProofError { proof: p, kind } }
+}
+pub struct Record<R> { pub name: Name, pub data: R, pub proof: Proof }
+pub struct RecordRef<'a, R> { pub name: &'a Name, pub data: &'a R }
+impl<'a, R> RecordRef<'a, R> {
+    pub fn name(&self) -> (r: &Name) ensures *r == *self.name { self.name }
+    pub fn data(&self) -> (r: &R) ensures *r == *self.data { self.data }
+}
+//%const crates/net/src/dnssec/mod.rs :: MAX_KEY_TAG_COLLISIONS
+//%end
+// `ds_records.iter().filter(|ds| ds.proof.is_secure())` as a loop source: R-for over the slice with the filter applied
+// as the first statement of the body
+//%fn crates/net/src/dnssec/mod.rs :: verify_dnskey
+//%sub1 "for r in ds_records.iter().filter(|ds| ds.proof.is_secure()) {" => "let mut vp_k: usize = 0; while vp_k < ds_records.len() invariant vp_k <= ds_records@.len(), key_authentication_attempts <= vp_k, key_tag_of(*rr.data) == Some(key_tag), key_algorithm == rr.data.algorithm, key_rdata == rr.data decreases ds_records@.len() - vp_k { let r = &ds_records[vp_k]; vp_k += 1; if !(r.proof.is_secure()) { continue; }" # R-iter: `for x in s.iter().filter(p) { B }` written as the indexed loop `while k < s.len() { let x = &s[k]; k += 1; if !p(x) { continue; } B }` (Verus has no `continue` in `for`); predicate and body verbatim
+//%sub1 ".map_err(|_| {" => ".map_err(|vp_e: ProtoError| -> (e: ProofError) ensures e.proof is Insecure {" # R-clo: typed closure, `_` parameter named
+//%before "return Ok(Proof::Secure);"
+        proof {
+            let i = vp_k - 1;
+            assert(*r == ds_records@[i]);
+            assert(ds_refers_to(ds_records@[i].data, *rr.name, *rr.data));
+        }
+//%sub1 "!r.data.covers(rr.name(), key_rdata).unwrap_or(false)" => "!vp_unwrap_or_false(r.data.covers(rr.name(), key_rdata))" # R-shim: Result::unwrap_or
+//%attr #[verifier::loop_isolation(false)]
+//%mutant digest_not_compared "if !r.data.covers(rr.name(), key_rdata).unwrap_or(false) { continue; }" => ""
+//%mutant key_tag_not_compared "if r.data.key_tag() != key_tag {" => "if false {"
+//%contract
+    // C07: the link parent DS -> child DNSKEY is established only by a DS record that was itself validated (Secure),
+    // names the key's algorithm and key tag, and whose digest is the digest of this owner name and DNSKEY (a zone key)
+    ensures r matches Ok(p) ==> p is Secure && alg_supported(rr.data.algorithm)
+        && exists|i: int| 0 <= i < ds_records@.len() && (#[trigger] ds_records@[i]).proof is Secure
+            && ds_records@[i].data.algorithm.0 == rr.data.algorithm.0 && key_tag_of(*rr.data) == Some(ds_records@[i].data.key_tag)
+            && ds_refers_to(ds_records@[i].data, *rr.name, *rr.data),
+        // a key without such a DS is never Secure: the error carries Insecure (unsupported algorithm / tag error) or Bogus
+        r matches Err(e) ==> !(e.proof is Secure),
+//%end
+pub fn vp_unwrap_or_false(r: ProtoResult<bool>) -> (b: bool) ensures b == (r matches Ok(true)) { match r { Ok(v) => v, Err(_) => false } }
+
 } // verus!
 fn main() {}
